@@ -138,6 +138,12 @@ class ListWrapper(typing.MutableSequence[T]):
         for v in other:
             self.append(v)
 
+    def reverse(self) -> None:
+        # The MutableSequence mixin swaps elements through __setitem__, which
+        # removes and re-adds them one at a time; membership does not change
+        # here, so reorder the underlying list directly.
+        self._data.reverse()
+
     # end functions for ABC
     def __str__(self) -> str:
         return str(self._data)
